@@ -1149,6 +1149,161 @@ fn run_stream_cases(r: &Report, cases: &[(Vec<usize>, usize)]) {
 }
 
 // ---------------------------------------------------------------------------------------------
+// compression round trip: VALID compressed frames of highly compressible content must be decoded, not refused
+// ---------------------------------------------------------------------------------------------
+
+const COMPRT_PATTERNS: [&str; 6] = ["zeros", "ab", "7-byte", "40-byte row", "random", "1000-byte block"];
+
+fn comprt_content(pattern: usize, size: usize) -> Vec<u8> {
+    let mut rng = vcore::Rng::new(0xC0 + pattern as u64);
+    match pattern {
+        0 => vec![0u8; size],
+        1 => (0..size).map(|i| b"ab"[i % 2]).collect(),
+        2 => (0..size).map(|i| b"\x01row\x00\xffz"[i % 7]).collect(),
+        3 => {
+            let row: Vec<u8> = [&[0u8, 0, 0, 4, 0, 0, 0, 7][..], &[0, 0, 0, 24], b"the same text in every r", &[0xff, 0xff, 0xff, 0xff, 0, 0, 0, 0]].concat();
+            (0..size).map(|i| row[i % row.len()]).collect()
+        }
+        4 => {
+            let mut v = vec![0u8; size];
+            rng.fill(&mut v);
+            v
+        }
+        _ => {
+            let mut block = vec![0u8; 1000];
+            rng.fill(&mut block);
+            (0..size).map(|i| block[i % 1000]).collect()
+        }
+    }
+}
+
+/// comp: 1 LZ4, 2 Snappy; encoder: 0 the driver's own compress_append (lz4_flex / snap encoders), 1 cqlref's greedy encoders
+fn comprt_case(comp: u8, encoder: u8, pattern: usize, size: usize) -> Result<(), (String, String)> {
+    use scylla_cql::frame::response::ResponseV2;
+    use scylla_cql::frame::{compress_append, decompress, parse_response_body_extensions, read_response_frame};
+    let cname = if comp == 1 { "lz4" } else { "snappy" };
+    let content = comprt_content(pattern, size);
+    let mut plain = (size as i32).to_be_bytes().to_vec();
+    plain.extend_from_slice(&content);
+    let compression = decode::compression_of(comp).unwrap();
+    let compressed = if encoder == 0 {
+        let mut out = Vec::new();
+        compress_append(&plain, compression, &mut out).map_err(|e| ("comprt:compress-failed".to_string(), e.to_string()))?;
+        out
+    } else {
+        p::cql_compress(frames::comp_from(comp), &plain, true)
+    };
+    let what = format!("{} bytes of {:?} compressed with {} by {} to {} bytes (ratio {:.1})", plain.len(), COMPRT_PATTERNS[pattern], cname, if encoder == 0 { "the driver's compress_append" } else { "cqlref" }, compressed.len(), plain.len() as f64 / compressed.len().max(1) as f64);
+    // reference side: the stream is valid (cqlref's own decoder reproduces the body)
+    if p::cql_decompress(frames::comp_from(comp), &compressed).ok().as_deref() != Some(&plain[..]) {
+        return Err(("comprt:reference-rejects-stream".into(), format!("cqlref's decoder does not reproduce {what}")));
+    }
+    match decompress(&compressed, compression) {
+        Err(e) => return Err((format!("comprt:valid-frame-refused:{cname}"), format!("decompress() refuses a valid body: {e}; {what}"))),
+        Ok(b) if b != plain => return Err((format!("comprt:body-differs:{cname}"), format!("decompress() returns a different body; {what}"))),
+        Ok(_) => {}
+    }
+    // the whole path: frame reader -> extensions (decompression) -> AUTH_SUCCESS body
+    let frame = frames::plain_frame(p::opcode::AUTH_SUCCESS, p::FLAG_COMPRESSION, 5, &compressed);
+    let mut rd: &[u8] = &frame;
+    let (params, opcode, body) = match decode::block_on(read_response_frame(&mut rd)) {
+        Some(Ok(x)) => x,
+        other => return Err(("comprt:frame-read-failed".into(), format!("{:?}; {what}", other.map(|r| r.map(|_| ()).map_err(|e| e.to_string()))))),
+    };
+    let ext = parse_response_body_extensions(params.flags, Some(compression), body).map_err(|e| (format!("comprt:valid-frame-refused:{cname}"), format!("parse_response_body_extensions refuses a valid frame: {e}; {what}")))?;
+    if ext.body[..] != plain[..] {
+        return Err((format!("comprt:body-differs:{cname}"), format!("inflated body differs; {what}")));
+    }
+    match ResponseV2::deserialize(&decode::features_of(0), opcode, ext.body, None) {
+        Ok(ResponseV2::AuthSuccess(a)) if a.success_message.as_deref() == Some(&content[..]) => Ok(()),
+        Ok(_) => Err((format!("comprt:body-differs:{cname}"), format!("decoded AUTH_SUCCESS token differs; {what}"))),
+        Err(e) => Err((format!("comprt:valid-frame-refused:{cname}"), format!("AUTH_SUCCESS refused: {e}; {what}"))),
+    }
+}
+
+fn comprt_sizes(thorough: bool) -> Vec<usize> {
+    let mut v = BTreeSet::new();
+    for e in 0..=(if thorough { 24 } else { 22 }) {
+        let p2 = 1usize << e;
+        v.insert(p2 - 1);
+        v.insert(p2);
+        v.insert(p2 + 1);
+    }
+    v.extend([65_535usize * 3, 100_000, 1_000_000]);
+    v.into_iter().collect()
+}
+
+fn comprt_child() -> ! {
+    use std::io::Read;
+    vcore::sandbox::limit_address_space(2 << 30);
+    vcore::quiet_panics();
+    let mut input = String::new();
+    std::io::stdin().read_to_string(&mut input).expect("stdin");
+    for (idx, line) in input.lines().enumerate() {
+        let n: Vec<usize> = line.split_whitespace().filter_map(|x| x.parse().ok()).collect();
+        if n.len() < 4 {
+            continue;
+        }
+        raw_write(&format!("I {idx}\n"));
+        match std::panic::catch_unwind(|| comprt_case(n[0] as u8, n[1] as u8, n[2], n[3])) {
+            Ok(Ok(())) => raw_write(&format!("K {idx}\n")),
+            Ok(Err((key, text))) => raw_write(&format!("V {idx} {key} | {}\n", text.replace('\n', " "))),
+            Err(_) => raw_write(&format!("V {idx} comprt:panic | panicked at {}\n", vcore::last_panic_location())),
+        }
+    }
+    std::process::exit(0)
+}
+
+/// one child per (pattern, compression): every size x both encoders
+fn run_comprt(r: &Report, pattern: usize, comp: u8, thorough: bool) {
+    let mut cases: Vec<[usize; 4]> = Vec::new();
+    for size in comprt_sizes(thorough) {
+        for enc in 0..2usize {
+            cases.push([comp as usize, enc, pattern, size]);
+        }
+    }
+    let input: String = cases.iter().map(|c| format!("{} {} {} {}\n", c[0], c[1], c[2], c[3])).collect();
+    let cr = vcore::sandbox::run_self(&["--comprt-child"], input.as_bytes(), Duration::from_secs(1800));
+    let text = String::from_utf8_lossy(&cr.stdout);
+    let case_json = |i: usize| json!({"leg": "comprt", "comp": cases[i][0], "encoder": cases[i][1], "pattern": cases[i][2], "size": cases[i][3]});
+    let mut done = vec![false; cases.len()];
+    let mut started = None;
+    for line in text.lines() {
+        let mut it = line.splitn(3, ' ');
+        match (it.next(), it.next().and_then(|x| x.parse::<usize>().ok())) {
+            (Some("I"), Some(i)) => started = Some(i),
+            (Some("K"), Some(i)) if i < cases.len() => {
+                done[i] = true;
+                r.eval(1);
+                r.nontrivial(1);
+                r.counters.add("cases_comprt", 1);
+                r.counters.add("compressed_valid_frames_decoded_identically", 1);
+            }
+            (Some("V"), Some(i)) if i < cases.len() => {
+                done[i] = true;
+                r.eval(1);
+                r.counters.add("cases_comprt", 1);
+                let rest = it.next().unwrap_or("");
+                let (key, what) = rest.split_once(" | ").unwrap_or((rest, ""));
+                if key == "comprt:reference-rejects-stream" {
+                    vcore::machinery_error(what);
+                }
+                r.violation(key, what, case_json(i));
+            }
+            _ => {}
+        }
+    }
+    if cr.timed_out {
+        vcore::machinery_error("compression round-trip child hit its wall-clock backstop");
+    }
+    if done.iter().any(|d| !d) {
+        let i = started.unwrap_or(0).min(cases.len() - 1);
+        r.eval(1);
+        r.violation("abort:comprt", &format!("decoder process died on case {:?}: exit {:?} signal {:?} {}", cases[i], cr.exit_code, cr.signal, cr.stderr_tail.replace('\n', " ")), case_json(i));
+    }
+}
+
+// ---------------------------------------------------------------------------------------------
 // main
 // ---------------------------------------------------------------------------------------------
 
@@ -1191,10 +1346,22 @@ fn main() {
     if argv.iter().any(|a| a == "--stream-child") {
         stream_child();
     }
+    if argv.iter().any(|a| a == "--comprt-child") {
+        comprt_child();
+    }
     vcore::quiet_panics();
     let r = Report::new("C08", "enum", "exploration", "E-ENUM");
     let oracle = Oracle { r: &r, runner: Runner { spawned: AtomicU64::new(0), crashes: AtomicU64::new(0), wall_backstop_hits: AtomicU64::new(0) }, outcome_classes: Mutex::new(BTreeSet::new()), max_legit_single: AtomicU64::new(0), max_legit_peak: AtomicU64::new(0), max_legit_ratio_x1000: AtomicU64::new(0), unreproduced: AtomicU64::new(0), pinned: Mutex::new(BTreeSet::new()) };
     if let Some(case) = r.replay_case() {
+        if case["leg"] == "comprt" {
+            let g = |k: &str| case[k].as_u64().unwrap_or(0) as usize;
+            match comprt_case(g("comp") as u8, g("encoder") as u8, g("pattern"), g("size")) {
+                Ok(()) => {}
+                Err((key, what)) => r.violation(&key, &what, case.clone()),
+            }
+            drop(oracle);
+            r.finish_replay();
+        }
         if case["leg"] == "stream" {
             let sizes: Vec<usize> = case["sizes"].as_array().map(|a| a.iter().filter_map(|x| x.as_u64()).map(|x| x as usize).collect()).unwrap_or_default();
             run_stream_cases(&r, &[(sizes, case["chunk"].as_u64().unwrap_or(0) as usize)]);
@@ -1245,6 +1412,7 @@ fn main() {
         Stream,
         ClassFuzz(usize),
         StreamHuge,
+        CompRt(usize),
         VectorNest,
         TableSpec,
     }
@@ -1273,6 +1441,9 @@ fn main() {
     units.push(Unit::VectorNest);
     units.push(Unit::Stream);
     units.insert(1, Unit::StreamHuge);
+    for k in 0..COMPRT_PATTERNS.len() * 2 {
+        units.insert(2, Unit::CompRt(k));
+    }
     for t in 0..frames::class_templates().len() {
         units.push(Unit::ClassFuzz(t));
     }
@@ -1295,6 +1466,7 @@ fn main() {
             Unit::Random(_) => only == "random",
             Unit::Stream => only == "stream",
             Unit::StreamHuge => only == "streamhuge",
+            Unit::CompRt(_) => only == "comprt",
             Unit::ClassFuzz(_) => only == "classfuzz",
             Unit::VectorNest => only == "vectornest",
             Unit::TableSpec => only == "tablespec",
@@ -1318,6 +1490,7 @@ fn main() {
             Unit::Random(_) => "random",
             Unit::Stream => "stream",
             Unit::StreamHuge => "streamhuge",
+            Unit::CompRt(_) => "comprt",
             Unit::ClassFuzz(_) => "classfuzz",
             Unit::VectorNest => "vectornest",
             Unit::TableSpec => "tablespec",
@@ -1387,6 +1560,7 @@ fn main() {
             Unit::BadClass => badclass_cases(&mut cases),
             Unit::Random(k) => random_cases(seed.wrapping_mul(1000).wrapping_add(k), 10_000, &mut cases),
             Unit::Stream => run_stream_cases(oref.r, &stream_cases(thorough)),
+            Unit::CompRt(k) => run_comprt(oref.r, k / 2, (k % 2 + 1) as u8, thorough),
             Unit::StreamHuge => {
                 // one frame above 256 MiB followed by a small one, in a child of its own (no allocation cap there: the stream
                 // children only compare what comes back); both frames must come back exactly, or the first be refused
@@ -1428,7 +1602,7 @@ fn main() {
     if unrep > 0 && r.args.extra_value("--only").is_none() {
         vcore::machinery_error(&format!("{unrep} fatal outcomes did not reproduce when the case was re-run alone"));
     }
-    r.set_rule("E-ENUM with deviation bounding. 0 deviations: corpus of well-formed frames of every response kind (ERROR all 19 codes with extras, READY, AUTHENTICATE, SUPPORTED, RESULT void/rows/set_keyspace/prepared/schema_change, EVENT all kinds, AUTH_CHALLENGE/SUCCESS; rows over a depth-2 type alphabet incl. class-string forms and vectors, every metadata flag combination, 0..2 rows, cached-metadata twin for no_metadata) x extension subsets x {none, LZ4, Snappy} x {matches, literal-only} x feature combinations (quick: 4; thorough: all 16), decoded through read_response_frame -> parse_response_body_extensions -> ResponseV2::deserialize (+ legacy Response for events) -> deserialize_metadata -> rows as raw cells, as Row/CqlValue and as every typed tuple of the target alphabet that passes type_check; decoded text must equal the text derived from the cqlref model. 1 deviation: every stream truncation, every body truncation with consistent header, every length/count/flag/id field x {0,1,-1,-2,+1,-1,0x7fff,0xffff,i32::MAX,i32::MIN, bit flips, all type ids / result kinds / opcodes / error codes}, header fields, every consistently shortened cell value (each prefix of each cell, length prefix adjusted), the iterator API of ListlikeIterator / MapIterator / VectorIterator / UdtIterator targets (nth(k) for k in 0..=len+2 after 0..3 next() calls, size_hint, last, count, skip, step_by on a fresh iterator each) whenever typed targets are on, every offset of the rows content x boundary 4-byte / 8-byte / 1-byte values (counts and lengths inside cell values, extreme scalars; typed targets on), damaged compressed streams (every cut, every byte x 4 values, announced length), bad class strings, class-string grammar holes (UDT keyspace / hex type name / hex field names / nested parameters / hex prefix / identifiers / vector dimension: 15 templates x every string of length 0..4 (thorough 0..5) over {hex digits, non-hex ASCII, '_', '.', 2-/3-/4-byte UTF-8 alphanumerics} + invalid UTF-8), nested fixed-size vectors (6 leaf types x depth 1..8 x dimension {0,1,2,255,65535,65536,2^31-1}, cells null/empty/short/long, typed targets), metadata of {1,100,10000,30000} columns x keyspace/table names of {1,255,4096,65535} bytes x global / per-column table spec in Rows and Prepared, type nesting 1e2..1e6 (binary) and 4..7000 (class strings). 2 deviations: field pairs (quick: same region or adjacent, reduced value alphabet; thorough: same region at any distance or any two fields <= 12 apart, full alphabet) and field mutation + body truncation right after the field / right before the end; thorough also repeats the single deviations under 6 feature sets with typed targets. Two-column rows over ordered pairs of the type alphabet (quick: a third; thorough: all). Stream level: sequences of 1-3 well-formed frames back to back in one reader, first-frame body sizes {0,1,9,8191,8192,32767,32768,32769,40000,49152,65535,65536,65537,100000,131073,300001}, reader handing out {everything, 1, 7, 4096, 65537} bytes per poll with Pending in between, decoded by repeated read_response_frame: every (params, opcode, body) equals what was encoded, in order, the reader is exhausted exactly at the end and one more read is an error; plus one frame of 256 MiB + 16 bytes followed by small frames, in a child of its own without allocation cap (~0.6 GB for about a second): both come back exactly or the big one is refused - never a truncated body followed by frames nobody sent. Sampled (labelled): random bodies behind valid headers. Oracle per case in a child process: no panic/abort/signal/stack overflow (2 MiB thread)/more than 4 s of CPU time for one decode; largest single request and peak live bytes above the pre-decode level <= 64 KiB + 256 x frame length (x decompressed body length once a compressed body has been inflated) by a counting allocator that reports before the request is served and refuses > 64 MiB. distinct_nontrivial = round trips that matched + deviations rejected with a clean error.");
+    r.set_rule("E-ENUM with deviation bounding. 0 deviations: corpus of well-formed frames of every response kind (ERROR all 19 codes with extras, READY, AUTHENTICATE, SUPPORTED, RESULT void/rows/set_keyspace/prepared/schema_change, EVENT all kinds, AUTH_CHALLENGE/SUCCESS; rows over a depth-2 type alphabet incl. class-string forms and vectors, every metadata flag combination, 0..2 rows, cached-metadata twin for no_metadata) x extension subsets x {none, LZ4, Snappy} x {matches, literal-only} x feature combinations (quick: 4; thorough: all 16), decoded through read_response_frame -> parse_response_body_extensions -> ResponseV2::deserialize (+ legacy Response for events) -> deserialize_metadata -> rows as raw cells, as Row/CqlValue and as every typed tuple of the target alphabet that passes type_check; decoded text must equal the text derived from the cqlref model. 1 deviation: every stream truncation, every body truncation with consistent header, every length/count/flag/id field x {0,1,-1,-2,+1,-1,0x7fff,0xffff,i32::MAX,i32::MIN, bit flips, all type ids / result kinds / opcodes / error codes}, header fields, every consistently shortened cell value (each prefix of each cell, length prefix adjusted), the iterator API of ListlikeIterator / MapIterator / VectorIterator / UdtIterator targets (nth(k) for k in 0..=len+2 after 0..3 next() calls, size_hint, last, count, skip, step_by on a fresh iterator each) whenever typed targets are on, every offset of the rows content x boundary 4-byte / 8-byte / 1-byte values (counts and lengths inside cell values, extreme scalars; typed targets on), damaged compressed streams (every cut, every byte x 4 values, announced length), bad class strings, class-string grammar holes (UDT keyspace / hex type name / hex field names / nested parameters / hex prefix / identifiers / vector dimension: 15 templates x every string of length 0..4 (thorough 0..5) over {hex digits, non-hex ASCII, '_', '.', 2-/3-/4-byte UTF-8 alphanumerics} + invalid UTF-8), nested fixed-size vectors (6 leaf types x depth 1..8 x dimension {0,1,2,255,65535,65536,2^31-1}, cells null/empty/short/long, typed targets), metadata of {1,100,10000,30000} columns x keyspace/table names of {1,255,4096,65535} bytes x global / per-column table spec in Rows and Prepared, type nesting 1e2..1e6 (binary) and 4..7000 (class strings). 2 deviations: field pairs (quick: same region or adjacent, reduced value alphabet; thorough: same region at any distance or any two fields <= 12 apart, full alphabet) and field mutation + body truncation right after the field / right before the end; thorough also repeats the single deviations under 6 feature sets with typed targets. Two-column rows over ordered pairs of the type alphabet (quick: a third; thorough: all). Stream level: sequences of 1-3 well-formed frames back to back in one reader, first-frame body sizes {0,1,9,8191,8192,32767,32768,32769,40000,49152,65535,65536,65537,100000,131073,300001}, reader handing out {everything, 1, 7, 4096, 65537} bytes per poll with Pending in between, decoded by repeated read_response_frame: every (params, opcode, body) equals what was encoded, in order, the reader is exhausted exactly at the end and one more read is an error; plus one frame of 256 MiB + 16 bytes followed by small frames, in a child of its own without allocation cap (~0.6 GB for about a second): both come back exactly or the big one is refused - never a truncated body followed by frames nobody sent. Compression round trip: AUTH_SUCCESS frames whose token is all-zero / 2-byte / 7-byte / 40-byte-row / 1000-byte-block repetition or random, sizes 2^e-1, 2^e, 2^e+1 up to 4 MiB (thorough 16 MiB), compressed with LZ4 and Snappy by the driver's own compress_append and by cqlref's encoders: decompress(), the frame path and the decoded token must reproduce the content exactly (valid frames are decoded, not refused). Sampled (labelled): random bodies behind valid headers. Oracle per case in a child process: no panic/abort/signal/stack overflow (2 MiB thread)/more than 4 s of CPU time for one decode; largest single request and peak live bytes above the pre-decode level <= 64 KiB + 256 x frame length (x decompressed body length once a compressed body has been inflated) by a counting allocator that reports before the request is served and refuses > 64 MiB. distinct_nontrivial = round trips that matched + deviations rejected with a clean error.");
     r.set_exhaustive(true);
     r.assume("row iteration is consumer-driven: the harness pulls at most 4096 rows per iterator and stops at the first error; every step is checked");
     r.assume("the decode runs on a 2 MiB thread (tokio worker default), RLIMIT_AS 2 GiB protects the checker only; verdicts come from the counting allocator");
